@@ -202,7 +202,7 @@ def run_case(idx, rng, P, rep):
         for K in classes:
             for p in ('c', 'cl', 'name'):
                 if K.param[p].constant is not True:
-                    viol('class-flag-not-restored' + (FOREIGN if any(issubclass(K, T) for T in tainted_cls) else ''),
+                    viol('class-flag-not-restored' + (FOREIGN if tainted_cls else ''),
                          f'{where}: {K.__name__}.param.{p}.constant is {K.param[p].constant}')
             if K.param['r'].readonly is not True:
                 viol('class-flag-not-restored', f'{where}: {K.__name__}.param.r.readonly lost')
@@ -243,7 +243,9 @@ def run_case(idx, rng, P, rep):
                 v = new_value(p)
                 trace.append(('class_set', K.__name__, p, repr(v), f'open={open_blocks}'))
                 if open_blocks:
-                    tainted_cls.add(K)
+                    # a copy-on-write inside a block leaves either the new subclass-level copy or the ancestor's
+                    # Parameter unlocked (whichever the exit does not resolve to): the whole hierarchy is affected
+                    tainted_cls.update(classes)
                 setattr(K, p, v)
                 if getattr(K, p) is not v:
                     viol('class-level-set-lost', f'{K.__name__}.{p} = v did not install v')
